@@ -5,7 +5,7 @@ NOTES = ("All checks decide their property by bounded symbolic execution of /rep
 CHECKS = {
     "C07": dict(
         text="Every path of the ASN.1 writers/readers for symbolic integers (|v| <= 2^72 quick, 2^520 thorough), booleans, OIDs (2..8 arcs, arcs < 2^64), "
-             "tags (class x constructed x number < 2^32), listed content lengths, content whose LENGTH is a solver variable over [0, 2^32) (thorough 2^64), a nested writer tree, UTF8String text whose code points are solver variables over all of Unicode, repeated packing of the same value, and 11 operation histories (peek/skip/read/remaining) on one reader is explored; on each path z3 proves the emitted "
+             "tags (class x constructed x number < 2^32), listed content lengths, content whose LENGTH is a solver variable over [0, 2^32) (thorough 2^64), a nested writer tree, UTF8String text whose code points are solver variables over all of Unicode, 13 listed texts that are not in normalisation form C, repeated packing of the same value, and 11 operation histories (peek/skip/read/remaining) on one reader is explored; on each path z3 proves the emitted "
              "octets equal an independent minimal-DER reference and the reader returns the value and consumes exactly the encoding. Exhaustive within "
              "those bounds, not beyond.",
         note="Trusted: the symbolic interpreter (cross-checked natively on every explored path), z3, the X.690 reference encoder in props/refs.py. "
@@ -30,7 +30,7 @@ CHECKS = {
     "C18": dict(
         text="EptMapResult.unpack and _process_ept_map_result are executed on replies built by an independent NDR64 encoder with symbolic protocol ids, payloads, "
              "ports, status and every tower-length residue mod 8 (z3 proves the returned port is that of the first tower with a TCP floor, errors exactly for "
-             "status != 0 / no TCP floor), and on arbitrary buffers whose 64-bit tower count is symbolic, where every path must end within the step budget.",
+             "status != 0 / no TCP floor), on replies with more towers than were requested (5..8, thorough 12) whose only TCP floor sits in a late tower, and on arbitrary buffers whose 64-bit tower count is symbolic, where every path must end within the step budget.",
         note="Trusted: interpreter, z3, the reference encoder. 'Proportional work' is decided as a fixed interpreted-statement budget on buffers up to 76 bytes."),
     "C20": dict(
         text="_get_highest_answer, lookup_dc and async_lookup_dc are executed on 1..5 SRV records with symbolic priority/weight/port in any order (the native sort "
@@ -103,7 +103,7 @@ CHECKS = {
              "DESIGN.md); one configuration (SHA512, nonce mode, 5-byte plaintext)."),
     "C05": dict(
         text="Every ASN.1 reader, the CMS/blob/key-identifier decoders and the offline unprotect path are executed on arbitrary byte strings of stated small sizes, on key "
-             "identifiers whose L0/L1/L2/flags/length fields are fully symbolic, on a valid symbolic blob with a symbolic byte at structural positions / truncations, and on 18 re-encodings of the CMS structure that are valid DER but not the expected shape (0/2/3 recipients, missing members, 3000-deep nestings; CPython's recursion limit is modelled); every "
+             "identifiers whose L0/L1/L2/flags/length fields are fully symbolic, on a valid symbolic blob with a symbolic byte at structural positions / truncations, and on 22 re-encodings of the CMS structure that are valid DER but not the expected shape (0/2/3 recipients, missing members, 3000-deep nestings; CPython's recursion limit is modelled); every "
              "path must end in a return, a cache miss or one of the deliberate error types within the statement budget, with at most 67 key-derivation steps and no "
              "allocation whose size is taken unchecked from the input.",
         note="Trusted: interpreter, z3, ideal-primitive and DH-algebra stubs. Whole-blob arbitrary buffers of realistic size are outside the technique; the composition "
